@@ -44,7 +44,7 @@ class C10(LZCheckMixin, PropertyCheck):
     release_too = True       # both build profiles (review 2: the both-modes theorems must be tied to a release build too)
     rule = ("streams: periods p (quick: 64 sampled incl. 1,2,3,17,18,19,4094,4095,4096; thorough: all 1..4096) x 3 pattern contents "
             "(random bytes, random bits, one odd byte) x 4 total lengths (just above p, around p + k*L, several periods), through both "
-            "compressors; plus the structured inputs of C08/C09 for the expansion bound and repeats continuing beyond 65808 bytes. "
+            "compressors; periods 2049..4095 with 3, 6 and 10 windows of data; plus the structured inputs of C08/C09 for the expansion bound and repeats continuing beyond 65808 bytes. "
             "Inputs <= 6 KiB are also compared with the extracted model (thorough: for the edge periods and every fifth period). Non-trivial = smallest period <= 4096 and at least two periods long; distinct = distinct (format, input).")
     assumptions = ["A-std: Vec, slices and integer casts behave as documented"]
 
@@ -76,6 +76,13 @@ class C10(LZCheckMixin, PropertyCheck):
                     data = periodic(pat, n)
                     for kind in ("lz10c", "lz13c"):
                         add(kind, data, "periodic-%s" % ("bytes", "bits", "odd-byte")[ci], with_model)
+        # long periods with MANY periods of data (seeded C10-7: the match length was limited to the displacement once the
+        # window slides - visible in the size bound for p in 2049..4095 and n >= p + 3*4096): implementation + inequalities
+        for p in ([2049, 2050, 3000, 4095, rng.randint(2051, 4094)] if tier == "quick" else [2049, 2050, 2500, 3000, 3500, 4000, 4094, 4095] + [rng.randint(2051, 4094) for _ in range(8)]):
+            pat = rand_bytes(rng, p)
+            for n in (p + 3 * 4096 + rng.randint(0, 9), p + 6 * 4096, p + 10 * 4096 + rng.randint(0, 4095)):
+                for kind in ("lz10c", "lz13c"):
+                    add(kind, periodic(pat, n), "periodic-long-period-many-periods")
         nst = 150 if tier == "quick" else 1500
         for _ in range(nst):
             name, data = structured_input(rng, rng.choice([40, 300, 1500, 6000, 20000]))
